@@ -33,7 +33,19 @@ type c15Case struct {
 	Ops    []c15Op
 	// Switches of the known findings (set by the runner, recorded for replay)
 	NoExpiry bool // avoid never-started topics older than GCExpire and idle periods longer than GCExpire
+	// Intr: operations executed in the middle of other operations, at yield points of the buffer
+	Intr []c15Intr `json:",omitempty"`
 }
+
+type c15Intr struct {
+	Point int // index into c15Points
+	Nth   int // at the Nth passage of that point in the whole history
+	Ops   []c15Op
+}
+
+// the collector's yield points: the Send that runs the collector has finished its own hand-over there, which is what the
+// model can follow (interleavings inside the hand-over itself are C14's subject, with its own scheduler)
+var c15Points = []string{"maybeGC:before-mark", "maybeGC:after-mark"}
 
 const c15PerSenderLimit = 100
 
@@ -119,6 +131,19 @@ func genC15(maxOps int) func(t *rapid.T) c15Case {
 			}
 			c.Ops = append(c.Ops, c15Op{Kind: 1, Sender: snd, Topic: 800, Burst: 1})
 		}
+		for i := rapid.IntRange(0, 3).Draw(t, "nintr"); i > 0; i-- {
+			in := c15Intr{Point: rapid.IntRange(0, 1).Draw(t, "ipoint"), Nth: rapid.IntRange(1, 6).Draw(t, "inth")}
+			for k := rapid.IntRange(1, 3).Draw(t, "iops"); k > 0; k-- {
+				in.Ops = append(in.Ops, c15Op{
+					Kind:   rapid.SampledFrom([]int{0, 0, 2}).Draw(t, "ikind"), // receives and clock ticks; a nested Send would run a nested collector, which the model cannot follow
+					Sender: rapid.IntRange(1, 3).Draw(t, "isender"),
+					Topic:  rapid.IntRange(0, 4).Draw(t, "itopic"),
+					Burst:  1,
+					Epochs: rapid.IntRange(1, 2).Draw(t, "iepochs"),
+				})
+			}
+			c.Intr = append(c.Intr, in)
+		}
 		n := rapid.IntRange(3, maxOps).Draw(t, "nops")
 		base := 0
 		for i := 0; i < n; i++ {
@@ -181,6 +206,7 @@ type c15Info struct {
 	Expiries                     int
 	ReuseAfterFinished           bool
 	Excluded                     int
+	Intrusions                   int
 	StragglersAfterRelease       int
 	ShedWhileWaiting             int
 }
@@ -298,9 +324,10 @@ func runC15(c c15Case) *vh.Outcome {
 			}
 		}
 
-		for _, op := range c.Ops {
+		var exec func(op c15Op)
+		exec = func(op c15Op) {
 			if fail != nil {
-				break
+				return
 			}
 			switch op.Kind {
 			case 0:
@@ -386,7 +413,7 @@ func runC15(c c15Case) *vh.Outcome {
 				if avoidExpiry {
 					if fa, ok := firstArrival[op.Topic]; ok && !started[op.Topic] && epoch-fa >= c.Expire {
 						info.Excluded++
-						continue
+						return
 					}
 				}
 				// expiry clause: data of a never-started topic that is older than GCExpire + 2 sweeps and saw >= 2 GC triggers must be gone
@@ -399,11 +426,17 @@ func runC15(c c15Case) *vh.Outcome {
 					before[m] = m.handed
 				}
 				clock++
+				// operations may be executed in the middle of this Send (intrusions at the collector's yield points, after the
+				// Send's own hand-over): everything the model books for THIS Send uses the epoch and the history at its start
+				e0, nSends := epoch, len(sendEpochs)
 				guard("Send", func() { box.Send(uint8(tss.MsgTypeMPC), c15Topic(op.Topic), []byte("x"), 1) })
 				collect()
 				if fail != nil {
 					break
 				}
+				epochNow := epoch
+				epoch = e0
+				defer func() { epoch = epochNow }()
 				released := map[int]int{}
 				for _, m := range all {
 					if m.topic == op.Topic && m.handed > before[m] {
@@ -435,7 +468,7 @@ func runC15(c c15Case) *vh.Outcome {
 					}
 					if any {
 						g1 := -1
-						for _, g := range sendEpochs {
+						for _, g := range sendEpochs[:nSends] {
 							if g1 < 0 && g > newest+c.Expire {
 								g1 = g
 							} else if g1 >= 0 && g > g1+c.Expire {
@@ -446,7 +479,7 @@ func runC15(c c15Case) *vh.Outcome {
 						}
 					}
 				}
-				sendEpochs = append(sendEpochs, epoch)
+				sendEpochs = append(sendEpochs[:nSends:nSends], append([]int{e0}, sendEpochs[nSends:]...)...)
 				if fail != nil {
 					break
 				}
@@ -516,11 +549,49 @@ func runC15(c c15Case) *vh.Outcome {
 					info.Excluded++
 				}
 				if !initialized {
-					continue // the clock only exists once the box has been used
+					return // the clock only exists once the box has been used
 				}
 				advance(n)
 			}
 		}
+		// intrusions: at the Nth passage of a yield point of the buffer (all lie outside its critical sections) a short list of
+		// further operations is executed right there - exactly what another goroutine could do at that moment. This puts
+		// receives, Sends and clock ticks BETWEEN the steps of a Send and of the collector (read clock / mark / sweep).
+		outerTopic, inIntr := -1, false
+		passages := map[string]int{}
+		msg.VerifYield = func(point string) {
+			if inIntr || fail != nil {
+				return
+			}
+			passages[point]++
+			for _, in := range c.Intr {
+				if c15Points[in.Point%len(c15Points)] != point || in.Nth != passages[point] {
+					continue
+				}
+				inIntr = true
+				info.Intrusions++
+				for _, op := range in.Ops {
+					if op.Kind == 1 || (op.Kind == 0 && op.Topic == outerTopic) {
+						continue // no nested Send; the model finishes its bookkeeping of the outer topic only when the operation returns
+					}
+					if op.Kind == 2 {
+						op.Epochs = 1
+					}
+					exec(op)
+				}
+				inIntr = false
+			}
+		}
+		defer func() { msg.VerifYield = nil }()
+		for _, op := range c.Ops {
+			if fail != nil {
+				break
+			}
+			outerTopic = op.Topic
+			exec(op)
+			outerTopic = -1
+		}
+		msg.VerifYield = nil
 		// flush: one final Send per topic that holds must-accept data younger than GCExpire
 		if fail == nil {
 			topics := map[int]bool{}
@@ -599,6 +670,9 @@ func runC15(c c15Case) *vh.Outcome {
 	}
 	if info.ShedWhileWaiting > 0 {
 		o.Classes = append(o.Classes, "shed-message-on-waiting-topic")
+	}
+	if info.Intrusions > 0 {
+		o.Classes = append(o.Classes, "operations-in-the-middle-of-another-operation")
 	}
 	if info.Excluded > 0 {
 		o.Classes = append(o.Classes, "excluded-by-known-finding-L19(expiry)")
